@@ -92,3 +92,58 @@ def run(ctx, rep):
                           b.loc(t["line"]), sample={"function": name, "callee": d})
                 rep.fn(name)
     rep.floor("R10.3", 4)
+    marker_discipline(ctx, rep)
+
+
+def marker_discipline(ctx, rep):
+    """R10.6: the encoder's notion of the active codepage changes only together with emitting the marker `^X` for
+    that same X (the decoder switches only at markers, so any silent change desynchronises the two)"""
+    from mirq import fmt_origin, origin_calls
+    b = ctx.mir.body("insim_core::string::codepages::to_lossy_bytes")
+    if b is None:
+        rep.fail("R10.6", "found", "to_lossy_bytes not found")
+        return
+    rep.fn(b.name)
+    state = [i for i, l in enumerate(b.locals) if l["ty"] == "&encoding_rs::Encoding" and len(b.defs().get(i, [])) > 1]
+    ctrl = [i for i, l in enumerate(b.locals) if l["ty"] == "char" and l.get("name") and len(b.defs().get(i, [])) > 1 and "control" in (l["name"] or "")]
+    rep.check("R10.6", "state-locals", len(state) == 1, "expected one mutable `&Encoding` state variable in to_lossy_bytes (found %d)" % len(state), b.loc(), nontrivial=False)
+    if len(state) != 1:
+        return
+    heads = b.loop_heads()
+    pushes = b.calls_to(r"Vec::<T(, A)?>::push$")
+    n = 0
+    for loc_ in state + ctrl:
+        for d in b.defs().get(loc_, []):
+            bb = d[1]
+            if not any(b.dominates(h, bb) for h in heads):
+                continue       # initialisation before the loop
+            n += 1
+            doms = [(pb, pt) for pb, pt in pushes if b.dominates(pb, bb) and any(b.dominates(h, pb) for h in heads)]
+            caret = [x for x in doms if b.origin(x[1]["args"][1])[0] == "call" and b.origin(x[1]["args"][1])[1].endswith("lfs_control_char")]
+            letter = [x for x in doms if b.origin(x[1]["args"][1])[0] == "cast"]
+            ok = len(caret) >= 1 and len(letter) >= 1
+            detail = "the active codepage is changed without emitting a `^X` marker first"
+            if ok:
+                # the pushed letter and the new state derive from the same candidate
+                lo = b.origin(letter[-1][1]["args"][1])[4]
+                if d[0] == "stmt" and d[3]["rv"]["k"] == "use":
+                    so = b.origin(d[3]["rv"]["x"])
+                elif d[0] == "call":
+                    so = ("call", callee(d[2])[0], None, [b.origin(a) for a in d[2]["args"]], d[1], [])
+                else:
+                    so = ("rv",)
+                same = fmt_origin(lo) in fmt_origin(so) or lo == so or any(fmt_origin(lo) == fmt_origin(a) for c in origin_calls(so) for a in c[3]) or _mentions(so, lo)
+                ok = same
+                detail = "the marker letter written (%s) is not the codepage being switched to (%s)" % (fmt_origin(lo), fmt_origin(so))
+            ordn = len([1 for i in rep.instances if i["key"].startswith("R10.6:switch:%s:" % (b.locals[loc_].get("name") or loc_))])
+            rep.check("R10.6", "switch:%s:%d" % (b.locals[loc_].get("name") or loc_, ordn), ok, "to_lossy_bytes: " + detail, b.loc(d[3]["line"] if d[0] == "stmt" else d[2]["line"]),
+                      sample={"state": b.locals[loc_].get("name"), "block": bb})
+    rep.floor("R10.6", 2)
+
+
+def _mentions(o, needle):
+    if o == needle:
+        return True
+    if isinstance(o, (tuple, list)):
+        return any(_mentions(x, needle) for x in o if isinstance(x, (tuple, list)))
+    return False
